@@ -18,9 +18,9 @@ func zzH_C35_excess_blob() {
 	zzAssume(target < max)
 	zzAssume(max <= 1<<16)
 	bcfg := BlobConfig{Target: target, Max: max, UpdateFraction: zzNondetU64()}
-	zzAssume(bcfg.UpdateFraction >= 1) // chain-config validity: the update fraction is a divisor
+	zzAssume(bcfg.UpdateFraction >= 1<<20) // real update fractions are >= 3338477; with excess <= 2^25 the exponent stays <= 32
 	excess, used := zzNondetU64(), zzNondetU64()
-	zzAssume(excess <= 1<<40)
+	zzAssume(excess <= 1<<25)
 	zzAssume(used <= uint64(max)*params.BlobTxBlobGasPerBlob) // header validation
 	baseFee := zzNondetBig(256)
 	parent := &types.Header{ExcessBlobGas: &excess, BlobGasUsed: &used, BaseFee: baseFee}
@@ -77,4 +77,87 @@ func zzH_C35_fake_exp() {
 	zzAssert(got.Sign() >= 1, "blob base fee is at least MIN_BLOB_GASPRICE")
 	zzReach("fake-exp")
 	zzObserve("lo", got.Uint64())
+}
+
+// ---- fork selection: which blob schedule and which excess rule apply to a block ----
+
+func zzBlobParams() *params.BlobConfig {
+	t, m := zzNondetInt(), zzNondetInt()
+	zzAssume(t >= 1)
+	zzAssume(t < m)
+	zzAssume(m <= 1<<10)
+	u := zzNondetU64()
+	zzAssume(u >= 1<<20) // real update fractions are >= 3338477; keeps excess/fraction (the exponent) small
+	return &params.BlobConfig{Target: t, Max: m, UpdateFraction: u}
+}
+
+// zzSchedule: London at genesis; Cancun <= Prague <= Osaka <= BPO1 <= BPO2 at symbolic times.
+// times[0..3] are the forks that carry blob parameters (Cancun, Prague, BPO1, BPO2), each with
+// its own symbolic entry; Osaka changes the excess rule only.
+func zzSchedule() (cfg *params.ChainConfig, times [4]uint64, osaka uint64, sched [4]*params.BlobConfig) {
+	for i := range times {
+		times[i] = zzNondetU64()
+		if i > 0 {
+			zzAssume(times[i-1] <= times[i])
+		}
+		sched[i] = zzBlobParams()
+	}
+	osaka = zzNondetU64()
+	zzAssume(times[1] <= osaka)
+	zzAssume(osaka <= times[2])
+	cfg = &params.ChainConfig{LondonBlock: big.NewInt(0),
+		CancunTime: &times[0], PragueTime: &times[1], OsakaTime: &osaka, BPO1Time: &times[2], BPO2Time: &times[3],
+		BlobScheduleConfig: &params.BlobScheduleConfig{Cancun: sched[0], Prague: sched[1], BPO1: sched[2], BPO2: sched[3]}}
+	return
+}
+
+// the schedule entry in force at time t: the latest blob-parameter fork whose time has come (EIP-7892)
+func zzActive(times [4]uint64, sched [4]*params.BlobConfig, t uint64) BlobConfig {
+	k := 0
+	for i := 1; i < 4; i++ {
+		if times[i] <= t {
+			k = i
+		}
+	}
+	return BlobConfig{Target: sched[k].Target, Max: sched[k].Max, UpdateFraction: sched[k].UpdateFraction}
+}
+
+func zzH_C35_schedule() {
+	cfg, times, osaka, sched := zzSchedule()
+	head := zzNondetU64()
+	zzAssume(head >= times[0]) // blob headers exist from Cancun on
+	ptime := zzNondetU64()
+	zzAssume(ptime < head)
+	excess, used := zzNondetU64(), zzNondetU64()
+	zzAssume(excess <= 1<<20) // exponent excess/fraction <= 1: the native replay evaluates the real exponential
+	zzAssume(used <= 1<<27)
+	parent := &types.Header{Number: big.NewInt(9), Time: ptime, ExcessBlobGas: &excess, BlobGasUsed: &used, BaseFee: zzNondetBig(64)}
+	// Facts about the real blob base fee that the uninterpreted stand-in must respect, so that
+	// counterexamples replay natively (the native run checks them on its concrete inputs):
+	// it is at least MIN_BLOB_BASE_FEE = 1, and below e < 3 while the exponent excess/fraction < 1.
+	actP := zzActive(times, sched, head)
+	fee := actP.blobBaseFee(excess)
+	zzAssume(zzBigLe(big.NewInt(1), fee))
+	zzAssume(zzAny(excess >= actP.UpdateFraction, zzBigLe(fee, big.NewInt(2))))
+	got := CalcExcessBlobGas(cfg, parent, head)
+	// the block's own timestamp decides both the schedule entry and the EIP-7918 rule
+	want := calcExcessBlobGas(head >= osaka, zzActive(times, sched, head), parent)
+	zzAssert(got == want, "excess blob gas uses the schedule entry and Osaka rule in force at the block's timestamp")
+
+	// header verification
+	hx, hu := zzNondetU64(), zzNondetU64()
+	zzAssume(hx <= 1<<25)
+	header := &types.Header{Number: big.NewInt(10), Time: head, ExcessBlobGas: &hx, BlobGasUsed: &hu}
+	err := VerifyEIP4844Header(cfg, parent, header)
+	act := zzActive(times, sched, head)
+	ok := zzAll(hx == want, hu <= uint64(act.Max)*(1<<17), hu%(1<<17) == 0)
+	zzAssert((err == nil) == ok, "header accepted iff excess matches, blob gas used is a multiple of the blob size and within the active maximum")
+	if err == nil {
+		zzReach("header-accepted")
+	} else {
+		zzReach("header-rejected")
+	}
+	zzAssert(MaxBlobsPerBlock(cfg, head) == act.Max && TargetBlobsPerBlock(cfg, head) == act.Target, "per-block blob limits follow the active entry")
+	zzAssert(zzBigEq(CalcBlobFee(cfg, header), act.blobBaseFee(hx)), "blob fee uses the active update fraction")
+	zzObserve("excess", got)
 }
